@@ -280,9 +280,11 @@ theorem step_asElem (ctx : Ctx) (tag : Str) (attrs : List Attr) (kids : List Nod
   intro st
   refine conv_of_succ (fun f => (monoAt_all W f).asElem ctx st tag attrs kids) (Conv.halts ?_)
   simp only [evalAsElement]
-  refine conv_ite _ (fun hv => ?_) (fun _ => conv_ite _ (fun _ => conv_ite _ (fun _ => ?_) (fun _ => ?_)) (fun _ => ?_))
+  refine conv_ite _ (fun hv => ?_) (fun _ => conv_ite _ (fun _ => ?_) (fun _ => conv_ite _ (fun _ => conv_ite _ (fun _ => ?_) (fun _ => ?_)) (fun _ => ?_)))
   · refine ih (Call.for_ ctx tag attrs kids (getAttr attrs (S "v-for"))) ?_ st
     have := loopInstanceAttrs_length_lt attrs (hasAttr_of_getAttr_ne attrs _ (by simpa using hv))
+    right; simp only [Call.depth, Call.ctx, Call.meas]; omega
+  · refine ih (Call.slot ctx attrs kids) ?_ st
     right; simp only [Call.depth, Call.ctx, Call.meas]; omega
   · refine ih (Call.tmpl ctx attrs kids) ?_ st
     right; simp only [Call.depth, Call.ctx, Call.meas]; omega
@@ -445,9 +447,6 @@ theorem step_elemBody (ctx : Ctx) (tag : Str) (attrs : List Attr) (kids rest : L
   · refine conv_bindR (ih (Call.vfor ctx tag attrs kids rest) ?_ st) (fun rs st1 => conv_prepend _ (hrest _ _))
     right; simp only [Call.depth, Call.ctx, Call.meas, lSize, nSize]; omega
   refine conv_ite _ (fun _ => ?_) (fun _ => ?_)
-  · refine conv_bindR (ih (Call.slot ctx attrs kids) ?_ st) (fun res st1 => conv_prepend _ (hrest0 _))
-    right; simp only [Call.depth, Call.ctx, Call.meas, lSize, nSize]; omega
-  refine conv_ite _ (fun _ => ?_) (fun _ => ?_)
   · refine conv_bindE _ (L.chain _ _ _) (fun ps => ?_)
     obtain ⟨pick, skip⟩ := ps
     cases pick with
@@ -475,6 +474,9 @@ theorem step_elemBody (ctx : Ctx) (tag : Str) (attrs : List Attr) (kids rest : L
               have := nSize_getElem_le rest i _ ho
               simp only [nSize] at this
               right; simp only [Call.depth, Call.ctx, Call.meas, lSize, nSize]; omega
+  refine conv_ite _ (fun _ => ?_) (fun _ => ?_)
+  · refine conv_bindR (ih (Call.slot ctx attrs kids) ?_ st) (fun res st1 => conv_prepend _ (hrest0 _))
+    right; simp only [Call.depth, Call.ctx, Call.meas, lSize, nSize]; omega
   refine conv_ite _ (fun _ => ?_) (fun _ => ?_)
   · refine conv_bindR (ih (Call.tmpl ctx attrs kids) ?_ st) (fun res st1 => conv_prepend _ (hrest0 _))
     right; simp only [Call.depth, Call.ctx, Call.meas, lSize, nSize]; omega
